@@ -11,5 +11,7 @@ CONSTANTS
   BlockSize = 8192
   Pos <- MCPos
   CoverKinds = {"PushBlob", "PushManifest", "DeleteBlob", "DeleteManifest", "DeleteTag"}
+  PrintKinds = {}
+  PrintMinMans = 0
 VIEW CoverView
 CHECK_DEADLOCK FALSE
